@@ -405,6 +405,45 @@ def odd_object_cases(ctx, only=None):
         return (A(0), type(A(1)).__name__, A(1).m())
     run("new: __new__ returning an object of another class", case_new)
 
+    def case_ctor(root, sub):
+        """root: what the class given invariants defines itself; sub: what its sub-class adds."""
+        def build(contracted):
+            ns = {"m": lambda self: 1}
+            if root in ("init", "both"):
+                ns["__init__"] = lambda self, *a: setattr(self, "a", a)
+            if root in ("new", "both"):
+                ns["__new__"] = lambda cls, *a: object.__new__(cls)
+            A = type("A", (), ns)
+            if contracted:
+                A = icontract.invariant(lambda self: True)(A)
+            sns = {}
+            if sub in ("init", "both"):
+                def sub_init(self, x, y=2):
+                    self.xy = (x, y)
+                sns["__init__"] = sub_init
+            if sub in ("new", "both"):
+                def sub_new(cls, x, y=2):
+                    o = object.__new__(cls)
+                    o.seen = (x, y)
+                    return o
+                sns["__new__"] = sub_new
+            S = type("S", (A,), sns)
+            outs = []
+            for args in ((), ("a",), ("a", "b")):
+                for K in (A, S):
+                    try:
+                        o = K(*args)
+                        outs.append((K.__name__, args, "ok", sorted(k for k in vars(o)), o.m()))
+                    except TypeError as e:
+                        outs.append((K.__name__, args, "TypeError"))
+            return outs
+        return build
+
+    for root in ("none", "init", "new", "both"):
+        for sub in ("none", "init", "new", "both"):
+            run("ctor: class with invariants defining %s, sub-class adding %s, constructed with 0..2 arguments" % (root, sub),
+                case_ctor(root, sub))
+
     def case_doc(contracted):
         def getter(self):
             "getter doc"
